@@ -174,8 +174,10 @@ impl YamlConverter {
 
     pub fn write(&self, v: &Val, mut w: &mut dyn Write) -> ConvertResult {
         let jsn_val = self.convert_value(v)?;
+        // serde_yaml ends the document with a newline of its own. Adding another
+        // one would become part of a final block scalar that keeps its trailing
+        // newlines.
         serde_yaml::to_writer(&mut w, &jsn_val)?;
-        writeln!(w)?;
         Ok(())
     }
 }
